@@ -19,7 +19,7 @@ git apply $out/patch.diff
 echo "demo with patch exit=$w (want !=0), without exit=$wo (want 0)"
 if [ -n "$SEED_IN_WORKTREE" ]; then
   # another job is using /repo (e.g. the thorough run): check the scratch worktree, which has the patch applied
-  cd /verif && bin/vf check -repo $wt -property $prop -no-evidence > /tmp/seed/out/$id.check.log 2>&1; c=$?
+  cd /verif && bin/vf check -repo $wt -property $prop -no-evidence -workers ${SEED_WORKERS:-16} > /tmp/seed/out/$id.check.log 2>&1; c=$?
 else
   cd /repo && git apply $out/patch.diff || { echo "patch does not apply to /repo"; exit 3; }
   cd /verif && ./check.sh $prop quick > /tmp/seed/out/$id.check.log 2>&1; c=$?
